@@ -3024,6 +3024,7 @@ class Qube(object):
             Qube._raise_incompatible_denoms('+=', self, arg)
 
         self._require_broadcast_into('+=', arg)
+        self._require_units_allowed('+=', arg)
 
         # Perform the operation
         if self.is_int() and not arg.is_int():
@@ -3148,6 +3149,7 @@ class Qube(object):
             Qube._raise_incompatible_denoms('-=', self, arg)
 
         self._require_broadcast_into('-=', arg)
+        self._require_units_allowed('-=', arg)
 
         # Perform the operation
         if self.is_int() and not arg.is_int():
@@ -3282,6 +3284,7 @@ class Qube(object):
                                                 self._rank_ * (1,))
 
             self._require_broadcast_into('*=', arg)
+            self._require_units_allowed('*=', arg)
 
             # Multiply...
             if self.is_int() and not arg.is_int():
@@ -3643,6 +3646,7 @@ class Qube(object):
                 div_values = np.reshape(div_values, np.shape(div_values) +
                                                     self._rank_ * (1,))
             self._require_broadcast_into('//=', arg)
+            self._require_units_allowed('//=', arg)
             self._values_ //= div_values
             self._merge_mask_(divisor._mask_)
             self._units_ = Units.div_units(self._units_, arg._units_)
@@ -3776,6 +3780,7 @@ class Qube(object):
                 div_values = np.reshape(div_values, np.shape(div_values) +
                                                     self._rank_ * (1,))
             self._require_broadcast_into('%=', arg)
+            self._require_units_allowed('%=', arg)
             self._values_ %= div_values
             self._merge_mask_(divisor._mask_)
             self._units_ = Units.div_units(self._units_, arg._units_)
@@ -4558,6 +4563,16 @@ class Qube(object):
         opstr = obj1._opstr(op)
         raise ValueError('incompatible shapes for %s: %s, %s'
                          % (opstr, obj1._shape_, obj2._shape_))
+
+    #===========================================================================
+    def _require_units_allowed(self, op, arg):
+        """Raise a TypeError if arg has units although the class of this object
+        disallows units, as the constructor does; the in-place operations would
+        otherwise hand the units of arg to this object."""
+
+        if arg._units_ is not None and not self.UNITS_OK:
+            raise TypeError('%s units are disallowed: %s'
+                            % (self._opstr(op), arg._units_))
 
     #===========================================================================
     def _require_broadcast_into(self, op, arg):
